@@ -11,6 +11,9 @@
 // Name faults replace one reached filter/function/test/macro/template name by an unknown one.
 // The documented tolerances (undefined variable/attribute, `ignore missing`) are checked against the
 // twin program in which the tolerated statement is deleted.
+// Templates in sub-directories that refer to each other by ./ and ../ names are served by the harness
+// loader and by a real FileSystemLoader; the target the relative name RESOLVES to is made to fail
+// (loader error for exactly that name, syntax error in it, unreadable file, missing).
 package main
 
 import (
@@ -18,11 +21,16 @@ import (
 	"errors"
 	"fmt"
 	"io"
+	"io/fs"
 	"os"
+	"path"
+	"path/filepath"
+	"reflect"
 	"regexp"
 	"sort"
 	"strconv"
 	"strings"
+	"syscall"
 
 	"github.com/semihalev/twig"
 
@@ -35,6 +43,7 @@ import (
 // Markers in template sources:
 //   @f @g @t @u   a filter / function / true-test / false-test call site (each gets its own name)
 //   #name#        a reference to template `name` (include / extends / import / from)
+//   #./n=dir/n#   a RELATIVE reference: `./n` (or `../d/n`) is written, the loader is asked for `dir/n`
 //   $name$        a call of (or import of) macro `name`
 //   «…»           a statement that is covered by a documented tolerance (its twin is the program
 //                 with the statement deleted)
@@ -45,7 +54,10 @@ type position struct {
 	hole   byte   // 'E' value expression, 'S' sequence expression, 'N' template-name expression, 0 none
 	top    string
 	tpls   map[string]string
-	spless bool // register a harness filter under the built-in name "spaceless"
+	spless bool              // register a harness filter under the built-in name "spaceless"
+	rel    bool              // templates live in sub-directories and refer to each other by ./ and ../ names
+	decoys map[string]string // (rel) templates under the names AS WRITTEN ("./part"), i.e. what a loader rooted
+	// one level up would find; present only in the "+root" variant of the position
 }
 
 // macro parameter list that re-binds every context variable an expression form may use
@@ -227,6 +239,151 @@ var positions = []position{
 		"top": "{% macro mm(a) %}[«{{ a }}{{ a.b }}»]{% endmacro %}{{ $mm$() }}{{ <E> }}"}},
 }
 
+// Templates in sub-directories that refer to each other by RELATIVE names. `#./part=pages/part#` writes
+// `./part`; the engine resolves it against the directory of the referring template and asks the loader
+// for `pages/part`. Faulted is the RESOLVED target (loader failure for exactly that name, syntax error in
+// it, or the name replaced by one that does not exist). Each position exists twice: as listed, and as
+// "<name>+root" where in addition a template is served under the name AS WRITTEN (what a loader sees when
+// the written name is joined to its root instead of the referring template's directory) — a failure of the
+// resolved target must not be replaced by that template.
+const relIncOnly = "with {'x': x, 'xs': xs} only"
+const relMacro = "{% macro mm(a) %}[{{ a|@f }}]{% endmacro %}"
+const decoyMacro = "{% macro mm(a) %}ROOT{% endmacro %}"
+
+var relPositions = []position{
+	{name: "relinclude", top: "pages/main", tpls: map[string]string{
+		"pages/main": "<{% include '#./part=pages/part#' %}>", "pages/part": "({{ x|@f }})"},
+		decoys: map[string]string{"./part": "ROOT"}},
+	{name: "relincludeignore", top: "pages/main", tpls: map[string]string{
+		"pages/main": "<{% include '#./part=pages/part#' ignore missing %}>", "pages/part": "({{ x|@f }})"},
+		decoys: map[string]string{"./part": "ROOT"}},
+	{name: "relincludewith", top: "pages/main", tpls: map[string]string{
+		"pages/main": "<{% include '#./part=pages/part#' with {'y': @g(2)} %}>", "pages/part": "({{ x|@f }}{{ y }})"},
+		decoys: map[string]string{"./part": "ROOT"}},
+	{name: "relincludeonly", top: "pages/main", tpls: map[string]string{
+		"pages/main": "<{% include '#./part=pages/part#' only %}>", "pages/part": "({{ @g(1) }})"},
+		decoys: map[string]string{"./part": "ROOT"}},
+	{name: "relincludewithonly", top: "pages/main", tpls: map[string]string{
+		"pages/main": "<{% include '#./part=pages/part#' " + relIncOnly + " %}>", "pages/part": "({{ x|@f }})"},
+		decoys: map[string]string{"./part": "ROOT"}},
+	{name: "relincludeignorewith", top: "pages/main", tpls: map[string]string{
+		"pages/main": "<{% include '#./part=pages/part#' ignore missing with {'y': @g(2)} %}>", "pages/part": "({{ x|@f }}{{ y }})"},
+		decoys: map[string]string{"./part": "ROOT"}},
+	{name: "relincludeignoreonly", top: "pages/main", tpls: map[string]string{
+		"pages/main": "<{% include '#./part=pages/part#' ignore missing only %}>", "pages/part": "({{ @g(1) }})"},
+		decoys: map[string]string{"./part": "ROOT"}},
+	{name: "relincludeignorewithonly", top: "pages/main", tpls: map[string]string{
+		"pages/main": "<{% include '#./part=pages/part#' ignore missing " + relIncOnly + " %}>", "pages/part": "({{ x|@f }})"},
+		decoys: map[string]string{"./part": "ROOT"}},
+	{name: "relincludeup", top: "pages/main", tpls: map[string]string{
+		"pages/main": "<{% include '#../lib/part=lib/part#' %}>", "lib/part": "({{ x|@f }})"},
+		decoys: map[string]string{"../lib/part": "ROOT"}},
+	{name: "relincludeupignore", top: "pages/main", tpls: map[string]string{
+		"pages/main": "<{% include '#../lib/part=lib/part#' ignore missing %}>", "lib/part": "({{ x|@f }})"},
+		decoys: map[string]string{"../lib/part": "ROOT"}},
+	{name: "relincludeupignorewith", top: "pages/main", tpls: map[string]string{
+		"pages/main": "<{% include '#../lib/part=lib/part#' ignore missing with {'y': 2} only %}>", "lib/part": "({{ y|@f }})"},
+		decoys: map[string]string{"../lib/part": "ROOT"}},
+	{name: "relincludedeepdir", top: "site/pages/main", tpls: map[string]string{
+		"site/pages/main": "<{% include '#../lib/part=site/lib/part#' ignore missing %}>", "site/lib/part": "({{ x|@f }})"},
+		decoys: map[string]string{"../lib/part": "ROOT"}},
+	{name: "relincludeloop", top: "pages/main", tpls: map[string]string{
+		"pages/main": "{% for i in xs %}{% include '#./part=pages/part#' ignore missing %}{% endfor %}k", "pages/part": "({{ i|@f }})"},
+		decoys: map[string]string{"./part": "ROOT"}},
+	{name: "relincludeblock", top: "pages/main", tpls: map[string]string{
+		"pages/main": "{% block b %}x{% include '#./part=pages/part#' ignore missing %}y{% endblock %}", "pages/part": "({{ x|@f }})"},
+		decoys: map[string]string{"./part": "ROOT"}},
+	{name: "relincludeif", top: "pages/main", tpls: map[string]string{
+		"pages/main": "{% if x is @t %}{% include '#./part=pages/part#' %}{% else %}n{% endif %}", "pages/part": "({{ x|@f }})"},
+		decoys: map[string]string{"./part": "ROOT"}},
+	{name: "relincludeexpr", top: "pages/main", tpls: map[string]string{
+		"pages/main": "<{% include @g(1) ? '#./part=pages/part#' : 'zznone' %}>", "pages/part": "({{ x|@f }})"},
+		decoys: map[string]string{"./part": "ROOT"}},
+	{name: "relincludeexprignore", top: "pages/main", tpls: map[string]string{
+		"pages/main": "<{% include @g(1) ? '#./part=pages/part#' : 'zznone' ignore missing %}>", "pages/part": "({{ x|@f }})"},
+		decoys: map[string]string{"./part": "ROOT"}},
+	{name: "relincludetwice", top: "pages/main", tpls: map[string]string{
+		"pages/main": "{% include '#./part=pages/part#' %}|{% include '#./part=pages/part#' ignore missing %}", "pages/part": "({{ x|@f }})"},
+		decoys: map[string]string{"./part": "ROOT"}},
+	// the included template (in another directory) refers to its own sibling
+	{name: "relincludechain", top: "pages/main", tpls: map[string]string{
+		"pages/main": "<{% include '#../lib/a=lib/a#' %}>",
+		"lib/a":      "A{% include '#./b=lib/b#' ignore missing %}",
+		"lib/b":      "({{ x|@f }})"},
+		decoys: map[string]string{"../lib/a": "ROOT", "./b": "ROOT"}},
+	{name: "relincludedown", top: "pages/main", tpls: map[string]string{
+		"pages/main":     "<{% include '#./sub/part=pages/sub/part#' %}>",
+		"pages/sub/part": "S{% include '#../other=pages/other#' ignore missing %}",
+		"pages/other":    "({{ x|@f }})"},
+		decoys: map[string]string{"./sub/part": "ROOT", "../other": "ROOT"}},
+	{name: "relextends", top: "pages/child", tpls: map[string]string{
+		"pages/base":  "[{% block b %}B{% endblock %}{{ @g(1) }}]",
+		"pages/child": "{% extends '#./base=pages/base#' %}{% block b %}C{{ x|@f }}{% endblock %}"},
+		decoys: map[string]string{"./base": "ROOT"}},
+	{name: "relextendsup", top: "pages/child", tpls: map[string]string{
+		"layouts/base": "[{% block b %}B{% endblock %}{{ @g(1) }}]",
+		"pages/child":  "{% extends '#../layouts/base=layouts/base#' %}{% block b %}C{{ x|@f }}{% endblock %}"},
+		decoys: map[string]string{"../layouts/base": "ROOT"}},
+	{name: "relextends2", top: "pages/leaf", tpls: map[string]string{
+		"layouts/base": "[{% block b %}B{{ @g(1) }}{% endblock %}]",
+		"pages/mid":    "{% extends '#../layouts/base=layouts/base#' %}{% block b %}M{{ parent() }}{% endblock %}",
+		"pages/leaf":   "{% extends '#./mid=pages/mid#' %}{% block b %}L{{ parent() }}{% endblock %}"},
+		decoys: map[string]string{"../layouts/base": "ROOT", "./mid": "ROOT"}},
+	{name: "relextendsinclude", top: "pages/main", tpls: map[string]string{
+		"pages/main":  "<{% include '#./child=pages/child#' ignore missing %}>",
+		"pages/base":  "[{% block b %}B{% endblock %}]",
+		"pages/child": "{% extends '#./base=pages/base#' %}{% block b %}C{{ @g(1) }}{% endblock %}"},
+		decoys: map[string]string{"./child": "ROOT", "./base": "ROOT"}},
+	{name: "relimport", top: "pages/main", tpls: map[string]string{
+		"pages/m":    relMacro,
+		"pages/main": "{% import '#./m=pages/m#' as l %}{{ l.$mm$(x) }}"},
+		decoys: map[string]string{"./m": decoyMacro}},
+	{name: "relimportup", top: "pages/main", tpls: map[string]string{
+		"lib/m":      relMacro,
+		"pages/main": "{% import '#../lib/m=lib/m#' as l %}{{ l.$mm$(x) }}"},
+		decoys: map[string]string{"../lib/m": decoyMacro}},
+	{name: "relimportinblock", top: "pages/child", tpls: map[string]string{
+		"pages/base":  "[{% block b %}B{% endblock %}]",
+		"lib/m":       relMacro,
+		"pages/child": "{% extends '#./base=pages/base#' %}{% block b %}{% import '#../lib/m=lib/m#' as l %}{{ l.$mm$(x) }}{% endblock %}"},
+		decoys: map[string]string{"../lib/m": decoyMacro, "./base": "ROOT"}},
+	{name: "relfrom", top: "pages/main", tpls: map[string]string{
+		"pages/m":    relMacro,
+		"pages/main": "{% from '#./m=pages/m#' import $mm$ %}{{ mm(x) }}"},
+		decoys: map[string]string{"./m": decoyMacro}},
+	{name: "relfromup", top: "pages/main", tpls: map[string]string{
+		"lib/m":      relMacro,
+		"pages/main": "{% from '#../lib/m=lib/m#' import $mm$ as q %}{{ q(x) }}"},
+		decoys: map[string]string{"../lib/m": decoyMacro}},
+	{name: "relfrominclude", top: "pages/main", tpls: map[string]string{
+		"pages/main": "<{% include '#./part=pages/part#' ignore missing %}>",
+		"pages/part": "{% from '#../lib/m=lib/m#' import $mm$ %}{{ mm(x) }}",
+		"lib/m":      relMacro},
+		decoys: map[string]string{"./part": "ROOT", "../lib/m": decoyMacro}},
+}
+
+func init() {
+	for _, p := range relPositions {
+		p.group, p.rel = "relative", true
+		plain := p
+		plain.decoys = nil
+		positions = append(positions, plain)
+	}
+	for _, p := range relPositions {
+		p.group, p.rel = "relative", true
+		p.name += "+root"
+		tp := map[string]string{}
+		for n, s := range p.tpls {
+			tp[n] = s
+		}
+		for n, s := range p.decoys {
+			tp[n] = s
+		}
+		p.tpls = tp
+		positions = append(positions, p)
+	}
+}
+
 type form struct{ name, src string }
 
 var exprForms = []form{
@@ -276,6 +433,26 @@ var exprForms = []form{
 	{"seqfilterlen", "xs|@f|length"},
 	{"seqfilterfirst", "xs|@f|first"},
 	{"join", "[x|@f, @g(2)]|join(@g(','))"},
+	// an item access with a callback inside its container or its index, as the base of a filter chain
+	// (starting with `default`, and with other filters). `g(m).k` / `(m|f).k` do not parse (see NOTES).
+	{"defitemon", "@g(m)['k']|default('d')"},
+	{"defindex", "xs[@g(0)]|default('d')"},
+	{"defmapkey", "m[@g('k')]|default('d')"},
+	{"defitemfilter", "(xs|@f)[0]|default('d')"},
+	{"defindexfilter", "xs[x|@f]|default('d')"},
+	{"defindextest", "xs[x is @t ? 0 : 1]|default('d')"},
+	{"defindextestfalse", "xs[x is @u]|default('d')"},
+	{"defmissingkey", "m[@g('nokey')]|default('d')"},
+	{"defitemboth", "@g(xs)[@g(1)]|default('d')"},
+	{"defchain", "@g(m)['k']|default('d')|upper"},
+	{"defchainharness", "xs[@g(0)]|default('d')|@f"},
+	{"defarg", "@g(m)['k']|default(@g('d'))"},
+	{"defnested", "m[@g('nokey')]|default(xs[@g(0)]|default('e'))"},
+	{"defafter", "@g(m)['k']|upper|default('d')"},
+	{"defconcat", "@g(m)['k']|default('d') ~ xs[@g(0)]|default('e')"},
+	{"itemfilter", "@g(m)['k']|@f"},
+	{"itembuiltin", "xs[@g(0)]|upper"},
+	{"itemlength", "([xs]|@f)[@g(0)]|length"},
 }
 
 var seqForms = []form{
@@ -292,6 +469,14 @@ var seqForms = []form{
 	{"seqempty", "@g([])"},
 	{"seqnil", "@g()"},
 	{"seqslice", "xs|slice(@g(0), 2)"},
+	// item access (callback in container / index) as the base of the sequence's filter chain
+	{"seqdefitem", "@g([xs])[0]|default([])"},
+	{"seqdefindex", "[xs][@g(0)]|default([])"},
+	{"seqdefitemfilter", "([xs]|@f)[0]|default([])"},
+	{"seqdefhashkey", "{'l': xs}[@g('l')]|default([])"},
+	{"seqdefchain", "@g([xs])[0]|default([])|reverse"},
+	{"seqdefmissing", "m[@g('nokey')]|default(xs|@f)"},
+	{"seqitemfilter", "@g([xs])[@g(0)]|@f"},
 }
 
 var nameForms = []form{
@@ -299,6 +484,8 @@ var nameForms = []form{
 	{"namefilter", "nm|@f"},
 	{"nametern", "@g(1) ? '#part#' : 'zznone'"},
 	{"nameconcat", "@g('pa') ~ 'rt'"},
+	{"namedefitem", "@g(['part'])[0]|default('zznone')"},
+	{"namedefindex", "['part'][@g(0)]|default('zznone')"},
 }
 
 var ctxVars = map[string]interface{}{
@@ -313,11 +500,12 @@ var ctxVars = map[string]interface{}{
 // programs
 
 type site struct {
-	Key    string // "f3", "g4", "t5", "u6" (callbacks) / "T7" (template name) / "M8" (macro name)
-	Kind   byte
-	Tpl    string // template the site is written in
-	Ref    string // referenced template / macro name
-	Ignore bool   // (template names) written in a tag that carries `ignore missing`
+	Key     string // "f3", "g4", "t5", "u6" (callbacks) / "T7" (template name) / "M8" (macro name)
+	Kind    byte
+	Tpl     string // template the site is written in
+	Ref     string // referenced template (the name the loader is asked for) / macro name
+	Written string // (template names) the name as written in the source: Ref, or a ./ ../ name that resolves to Ref
+	Ignore  bool   // (template names) written in a tag that carries `ignore missing`
 }
 
 type program struct {
@@ -332,7 +520,7 @@ type program struct {
 	nested bool
 }
 
-var markerRE = regexp.MustCompile(`@[fgtu]|#[a-z0-9]+#|\$[a-z0-9]+\$`)
+var markerRE = regexp.MustCompile(`@[fgtu]|#[a-z0-9./]+(?:=[a-z0-9/]+)?#|\$[a-z0-9]+\$`)
 
 func newProgram(p *position, f form) *program {
 	id := p.name + "/" + f.name
@@ -379,7 +567,12 @@ func buildProgram(id string, p *position, formName, top string, raw map[string]s
 						ignore = strings.Contains(src[a:loc[1]+b], "ignore missing")
 					}
 				}
-				pr.sites = append(pr.sites, site{Key: fmt.Sprintf("T%d", k), Kind: 'T', Tpl: n, Ref: mk[1 : len(mk)-1], Ignore: ignore})
+				written := mk[1 : len(mk)-1]
+				ref := written
+				if eq := strings.IndexByte(written, '='); eq >= 0 {
+					written, ref = written[:eq], written[eq+1:]
+				}
+				pr.sites = append(pr.sites, site{Key: fmt.Sprintf("T%d", k), Kind: 'T', Tpl: n, Ref: ref, Written: written, Ignore: ignore})
 			case '$':
 				pr.sites = append(pr.sites, site{Key: fmt.Sprintf("M%d", k), Kind: 'M', Tpl: n, Ref: mk[1 : len(mk)-1]})
 			}
@@ -421,32 +614,44 @@ var wrappers = []wrapper{
 	{name: "wspaceless", group: "spaceless", tpls: map[string]string{"top": "{% spaceless %}<B>{% endspaceless %}"}},
 }
 
-var nestedExprForms = map[string]bool{"filter": true, "func": true, "test": true, "filterarg": true, "ternfalse": true, "and": true, "hash": true, "seqfilterfirst": true}
-var nestedSeqForms = map[string]bool{"seqfilter": true, "seqfunc": true, "seqarray": true}
+var nestedExprForms = map[string]bool{"filter": true, "func": true, "test": true, "filterarg": true, "ternfalse": true, "and": true, "hash": true, "seqfilterfirst": true,
+	"defitemon": true, "defindex": true, "defitemfilter": true}
+var nestedSeqForms = map[string]bool{"seqfilter": true, "seqfunc": true, "seqarray": true, "seqdefitem": true}
 
-var refRE = regexp.MustCompile(`#([a-z0-9]+)#`)
+var refRE = regexp.MustCompile(`#([a-z0-9./]+=)?([a-z0-9/]+)#`)
 
 // nest places the inner program inside the wrapper: inline where the inner top template is a plain
 // body, through an include where it extends another template or defines macros.
 func nest(w *wrapper, in *program) *program {
 	raw := map[string]string{}
-	ren := func(s string) string { return refRE.ReplaceAllString(s, "#i$1#") }
+	// every inner template gets the prefix "i" (a relative reference keeps its written form, its
+	// resolved name gets the prefix
+	// — the relative-name programs move into a directory "i/" instead, so that ../ keeps working)
+	pfx := "i"
+	if in.pos.rel {
+		pfx = "i/"
+	}
+	ren := func(s string) string { return refRE.ReplaceAllString(s, "#${1}"+pfx+"$2#") }
 	innerTop := ren(in.raw[in.top])
 	body := innerTop
-	inline := !strings.Contains(innerTop, "{% extends") && !strings.Contains(innerTop, "{% macro")
+	inline := !strings.Contains(innerTop, "{% extends") && !strings.Contains(innerTop, "{% macro") && !in.pos.rel
 	for n, s := range in.raw {
 		if n == in.top && inline {
 			continue
 		}
-		raw["i"+n] = ren(s)
+		if strings.HasPrefix(n, ".") {
+			raw[n] = s // a template under a name as written ("./part") keeps that name
+			continue
+		}
+		raw[pfx+n] = ren(s)
 	}
 	if !inline {
-		body = "{% include '#i" + in.top + "#' %}"
+		body = "{% include '#" + pfx + in.top + "#' %}"
 	}
 	for n, s := range w.tpls {
 		raw[n] = strings.ReplaceAll(s, "<B>", body)
 	}
-	p := &position{name: w.name + ">" + in.pos.name, group: w.group + ">" + in.pos.group, spless: in.pos.spless}
+	p := &position{name: w.name + ">" + in.pos.name, group: w.group + ">" + in.pos.group, spless: in.pos.spless, rel: in.pos.rel}
 	pr := buildProgram(w.name+">"+in.id, p, in.form, "top", raw)
 	pr.nested = true
 	return pr
@@ -501,7 +706,10 @@ func (pr *program) sources(rename map[string]string, dropTol bool) map[string]st
 			if r, ok := rename[st.Key]; ok {
 				return r
 			}
-			if st.Kind == 'T' || st.Kind == 'M' {
+			if st.Kind == 'T' {
+				return st.Written
+			}
+			if st.Kind == 'M' {
 				return st.Ref
 			}
 			return st.Key
@@ -618,6 +826,10 @@ func (l *hloader) Exists(n string) bool { _, ok := l.src[n]; return ok }
 
 const brokenSource = "{% if %}{{ }"
 
+// fsDir as a template source: the FileSystemLoader variant creates a DIRECTORY where the template file is
+// expected, so that reading it fails with an I/O error (EISDIR) although the name exists
+const fsDir = "\x00directory"
+
 var modes = []string{"R", "D", "V", "O", "W", "WD", "T"}
 var loaderVariants = []string{"solo", "afterempty", "beforeempty", "chain", "chainafterempty"}
 
@@ -692,16 +904,50 @@ func run(pr *program, src map[string]string, mode, variant string, pl *plan) (re
 			return v, nil
 		})
 	}
-	served := map[string]string{"broken": brokenSource}
+	served := map[string]string{"broken": brokenSource, "zzempty": ""}
 	for n, s := range src {
 		if strings.HasPrefix(s, "API-MACRO|") {
 			continue
 		}
 		served[n] = s
+		if d := path.Dir(n); d != "." && !strings.HasPrefix(n, ".") {
+			served[d+"/broken"] = brokenSource // a sibling with a syntax error in every sub-directory
+			served[d+"/zzempty"] = ""          // and an empty one
+		}
 	}
 	h := &hloader{src: served, pl: pl}
 	empty := func() twig.Loader { return twig.NewArrayLoader(map[string]string{}) }
 	switch variant {
+	case "fs":
+		// a real FileSystemLoader on a temporary directory: template `n` is the file <root>/n.twig
+		// (a template under a written name such as "../lib/m" lands beside the root, where joining
+		// the written name to the root puts it); the source fsDir makes a directory of that name
+		tmp, err := os.MkdirTemp("", "c17fs")
+		if err != nil {
+			panic(err)
+		}
+		defer os.RemoveAll(tmp)
+		root := filepath.Join(tmp, "r", "r")
+		names := make([]string, 0, len(served))
+		for n := range served {
+			names = append(names, n)
+		}
+		sort.Strings(names)
+		for _, n := range names {
+			file := filepath.Join(root, n) + ".twig"
+			if err := os.MkdirAll(filepath.Dir(file), 0o755); err != nil {
+				panic(err)
+			}
+			if served[n] == fsDir {
+				err = os.MkdirAll(file, 0o755)
+			} else {
+				err = os.WriteFile(file, []byte(served[n]), 0o644)
+			}
+			if err != nil {
+				panic(err)
+			}
+		}
+		e.RegisterLoader(twig.NewFileSystemLoader([]string{root}))
 	case "afterempty":
 		e.RegisterLoader(empty())
 		e.RegisterLoader(h)
@@ -868,51 +1114,130 @@ func faultCase(pr *program, mode, variant string, arms []arm, value bool, faultD
 
 func isWriterMode(m string) bool { return m == "W" || m == "WD" }
 
-// nameCase: one reached name is replaced by one that cannot be resolved (or, for a template name,
-// by a template with a syntax error).
-func nameCase(pr *program, mode string, st site, repl string, tolerated bool, faultDesc string) *vlib.Outcome {
-	src := pr.sources(map[string]string{st.Key: repl}, false)
+// relName gives the name to write at a template-name site so that it refers to `base` in the same
+// directory as the regular target: "zznone" for a plain site, "./zznone" / "../lib/zznone" for a
+// relative one.
+func relName(st site, base string) string {
+	if i := strings.LastIndexByte(st.Written, '/'); i >= 0 && st.Written != st.Ref {
+		return st.Written[:i+1] + base
+	}
+	return base
+}
+
+// syntaxCause is the innermost error that loading a template with the source brokenSource gives on a
+// fresh engine: the cause that must stay reachable when such a template is referenced during a render.
+var syntaxCause = func() error {
+	e := twig.New()
+	e.RegisterLoader(twig.NewArrayLoader(map[string]string{"b": brokenSource}))
+	_, err := e.Load("b")
+	for err != nil {
+		u := errors.Unwrap(err)
+		if u == nil {
+			break
+		}
+		err = u
+	}
+	return err
+}()
+
+// chainHas walks the error tree the way errors.Is / errors.As do and reports whether it contains an
+// error of the same dynamic type and text as cause (errors.As to the cause's type finds its equal).
+func chainHas(err, cause error) bool {
+	if err == nil || cause == nil {
+		return false
+	}
+	if reflect.TypeOf(err) == reflect.TypeOf(cause) && err.Error() == cause.Error() {
+		return true
+	}
+	switch u := err.(type) {
+	case interface{ Unwrap() error }:
+		return chainHas(u.Unwrap(), cause)
+	case interface{ Unwrap() []error }:
+		for _, e := range u.Unwrap() {
+			if chainHas(e, cause) {
+				return true
+			}
+		}
+	}
+	return false
+}
+
+// nameCase: one reached name is replaced by one that cannot be resolved; for a template name also: by a
+// sibling with a syntax error ("broken"), the referenced template itself gets a syntax error
+// ("brokeninplace"), or (FileSystemLoader) is a directory that cannot be read ("isdir").
+func nameCase(pr *program, mode, variant string, st site, kind string, tolerated bool, faultDesc string) *vlib.Outcome {
+	var src map[string]string
+	repl := kind
+	switch kind {
+	case "callback":
+		repl = "zz" + st.Key
+		src = pr.sources(map[string]string{st.Key: repl}, false)
+	case "macro":
+		repl = "zzmacro"
+		src = pr.sources(map[string]string{st.Key: repl}, false)
+	case "missing":
+		repl = "zznone"
+		src = pr.sources(map[string]string{st.Key: relName(st, repl)}, false)
+	case "broken":
+		src = pr.sources(map[string]string{st.Key: relName(st, repl)}, false)
+	case "brokeninplace":
+		src = pr.sources(nil, false)
+		src[st.Ref] = brokenSource
+	case "isdir":
+		src = pr.sources(nil, false)
+		src[st.Ref] = fsDir
+	default:
+		panic("nameCase: " + kind)
+	}
 	pl := newPlan(nil, false)
-	res := run(pr, src, mode, "solo", pl)
+	res := run(pr, src, mode, variant, pl)
 	o := &vlib.Outcome{Nontrivial: true, Counters: map[string]int64{"renders": 1}}
-	kind := siteKind(st.Key)
+	skind := siteKind(st.Key)
+	if variant == "fs" {
+		skind = "fs-" + skind
+	}
 	var viol string
 	if tolerated {
 		// `ignore missing` on a template that no loader has: same as the program without the statement.
-		// The statement is the only one of its template that produces output in these programs, so the
-		// twin is the program whose included template is empty.
-		twinSrc := pr.sources(nil, false)
-		twinSrc[st.Ref] = ""
-		twin := run(pr, twinSrc, mode, "solo", newPlan(nil, false))
+		// The twin is the program in which the statement refers to an existing empty template.
+		twinSrc := pr.sources(map[string]string{st.Key: relName(st, "zzempty")}, false)
+		twin := run(pr, twinSrc, mode, variant, newPlan(nil, false))
 		o.Counters["renders"]++
 		switch {
 		case res.err != nil:
 			viol = fmt.Sprintf("`ignore missing` on a missing template failed: %s", errText(res.err))
-			o.Class = pr.pos.group + "/" + kind + "/ignore-missing-failed"
+			o.Class = pr.pos.group + "/" + skind + "/ignore-missing-failed"
 		case twin.err != nil || twin.out != res.out:
 			viol = fmt.Sprintf("`ignore missing` on a missing template gave %q, the program with an empty template gives %q (err=%s)", res.out, twin.out, errText(twin.err))
-			o.Class = pr.pos.group + "/" + kind + "/ignore-missing-differs"
+			o.Class = pr.pos.group + "/" + skind + "/ignore-missing-differs"
 		default:
-			o.Class = pr.pos.group + "/" + kind + "/ignore-missing-empty"
+			o.Class = pr.pos.group + "/" + skind + "/ignore-missing-empty"
 		}
 	} else {
+		var pe *fs.PathError
 		switch {
 		case res.err == nil:
-			viol = fmt.Sprintf("the unresolvable name %q was swallowed: err == nil, output %q", repl, res.out)
-			o.Class = pr.pos.group + "/" + kind + "/swallowed"
+			viol = fmt.Sprintf("the failure was swallowed: err == nil, output %q", res.out)
+			o.Class = pr.pos.group + "/" + skind + "/swallowed"
 		case res.out != "" && !isWriterMode(mode):
 			viol = fmt.Sprintf("Render returned the error %s together with non-empty output %q", errText(res.err), res.out)
-			o.Class = pr.pos.group + "/" + kind + "/error-with-output"
-		case repl == "zznone" && !errors.Is(res.err, twig.ErrTemplateNotFound):
+			o.Class = pr.pos.group + "/" + skind + "/error-with-output"
+		case kind == "missing" && !errors.Is(res.err, twig.ErrTemplateNotFound):
 			viol = fmt.Sprintf("the error for a template no loader has does not match ErrTemplateNotFound: %s", errText(res.err))
-			o.Class = pr.pos.group + "/" + kind + "/cause-lost"
+			o.Class = pr.pos.group + "/" + skind + "/cause-lost"
+		case (kind == "broken" || kind == "brokeninplace") && !chainHas(res.err, syntaxCause):
+			viol = fmt.Sprintf("the syntax error of the referenced template (%T %q) cannot be found in the returned error: %s", syntaxCause, syntaxCause.Error(), errText(res.err))
+			o.Class = pr.pos.group + "/" + skind + "/cause-lost"
+		case kind == "isdir" && !(errors.Is(res.err, syscall.EISDIR) && errors.As(res.err, &pe)):
+			viol = fmt.Sprintf("the I/O error of the loader (*fs.PathError, EISDIR) cannot be found in the returned error: %s", errText(res.err))
+			o.Class = pr.pos.group + "/" + skind + "/cause-lost"
 		default:
-			o.Class = pr.pos.group + "/" + kind + "/" + repl + "-surfaced"
+			o.Class = pr.pos.group + "/" + skind + "/" + repl + "-surfaced"
 		}
 	}
 	if viol != "" {
-		o.Violation = fmt.Sprintf("program %s (render %q of %v), mode %s, %s: %s", pr.id, pr.top, src, mode, faultDesc, viol)
-		o.Detail = detail{pr.id, src, pr.top, mode, "solo", faultDesc, res.out, errText(res.err)}
+		o.Violation = fmt.Sprintf("program %s (render %q of %v), mode %s, loaders %s, %s: %s", pr.id, pr.top, src, mode, variant, faultDesc, viol)
+		o.Detail = detail{pr.id, src, pr.top, mode, variant, faultDesc, res.out, errText(res.err)}
 	}
 	return o
 }
@@ -962,6 +1287,11 @@ func baseCase(pr *program, mode string) *vlib.Outcome {
 
 func main() {
 	twig.SetDebugWriter(io.Discard)
+	if os.Getenv("C17_DUMP") == "count" {
+		fmt.Printf("positions=%d exprForms=%d seqForms=%d nameForms=%d flat=%d nested(quick)=%d nested(thorough)=%d\n",
+			len(positions), len(exprForms), len(seqForms), len(nameForms), len(allPrograms()), len(nestedPrograms(false)), len(nestedPrograms(true)))
+		return
+	}
 	if os.Getenv("C17_DUMP") != "" {
 		for _, pr := range append(allPrograms(), nestedPrograms(false)...) {
 			b := computeBaseline(pr)
@@ -980,7 +1310,10 @@ func main() {
 			"nested and in loops) × every expression form with harness filters, functions and tests, all templates from a harness loader; each program is run " +
 			"fault-free to count the invocations of every call site, then once per (site, n) with exactly the n-th invocation failing with a fresh sentinel, " +
 			"in every render mode and for both result flavours; loader invocations additionally under every loader arrangement; every reached callback, macro and " +
-			"template name is replaced once by an unresolvable one; thorough adds every pair of armed invocations. Non-trivial = the armed invocation really happened " +
+			"template name is replaced once by an unresolvable one; thorough adds every pair of armed invocations. Templates in sub-directories referring to each other " +
+			"by ./ and ../ names (include with every option set, extends, import, from; with and without a template under the name as written) get the RESOLVED target " +
+			"faulted: loader failure for exactly that name, a syntax error in it, the name missing — through the harness loader and through a FileSystemLoader on a " +
+			"temporary directory (unreadable target = a directory in place of the file). Non-trivial = the armed invocation really happened " +
 			"(or the renamed site is reached in the fault-free run)",
 		Assumptions: []string{
 			"positions and expression forms outside the listed corpus are not explored; at most two failures per render",
@@ -1094,11 +1427,11 @@ func runAll(t *vlib.T) {
 						continue // never reached
 					}
 					t.Case(pr.id+"|"+mode+"|name:"+st.Key, func() *vlib.Outcome {
-						return nameCase(pr, mode, st, "zz"+st.Key, false, "unknown "+siteKind(st.Key)+" name at site "+st.Key)
+						return nameCase(pr, mode, "solo", st, "callback", false, "unknown "+siteKind(st.Key)+" name at site "+st.Key)
 					})
 				case 'M':
 					t.Case(pr.id+"|"+mode+"|name:"+st.Key, func() *vlib.Outcome {
-						return nameCase(pr, mode, st, "zzmacro", false, "unknown macro name at site "+st.Key+" ("+st.Ref+")")
+						return nameCase(pr, mode, "solo", st, "macro", false, "unknown macro name at site "+st.Key+" ("+st.Ref+")")
 					})
 				case 'T':
 					if b.counts["L:"+st.Ref] == 0 && !strings.HasPrefix(pr.raw[st.Ref], "API-MACRO|") {
@@ -1106,10 +1439,70 @@ func runAll(t *vlib.T) {
 					}
 					ignore := st.Ignore
 					t.Case(pr.id+"|"+mode+"|name:"+st.Key+":missing", func() *vlib.Outcome {
-						return nameCase(pr, mode, st, "zznone", ignore, "template name at site "+st.Key+" ("+st.Ref+") replaced by one no loader has")
+						return nameCase(pr, mode, "solo", st, "missing", ignore, "template name at site "+st.Key+" ("+st.Written+") replaced by one no loader has")
 					})
 					t.Case(pr.id+"|"+mode+"|name:"+st.Key+":broken", func() *vlib.Outcome {
-						return nameCase(pr, mode, st, "broken", false, "template name at site "+st.Key+" ("+st.Ref+") replaced by a template with a syntax error")
+						return nameCase(pr, mode, "solo", st, "broken", false, "template name at site "+st.Key+" ("+st.Written+") replaced by a template with a syntax error")
+					})
+					if st.Written != st.Ref {
+						t.Case(pr.id+"|"+mode+"|name:"+st.Key+":brokeninplace", func() *vlib.Outcome {
+							return nameCase(pr, mode, "solo", st, "brokeninplace", false, "the template "+st.Ref+" that "+st.Written+" at site "+st.Key+" resolves to has a syntax error")
+						})
+					}
+				}
+			}
+		}
+	}
+	// phase 2b: the relative-name programs once more through a real FileSystemLoader on a temporary
+	// directory: failing callbacks; the resolved target missing, with a syntax error, unreadable
+	for _, mode := range nameModes {
+		for i, pr := range progs {
+			b := bases[i]
+			if !b.ok || !pr.pos.rel || pr.nested {
+				continue
+			}
+			pr, mode, want := pr, mode, b.out
+			fsOK := func() *vlib.Outcome {
+				res := run(pr, pr.sources(nil, false), mode, "fs", newPlan(nil, false))
+				if res.err != nil || res.out != want {
+					// the fault-free render through the FileSystemLoader is not the one of the harness
+					// loader (name resolution is not this property's business): no faults are judged
+					return &vlib.Outcome{Class: "relative/fs/baseline-differs", Counters: map[string]int64{"renders": 1, "fs_baseline_differs": 1}}
+				}
+				return nil
+			}
+			t.Case(pr.id+"|"+mode+"|fs|base", func() *vlib.Outcome {
+				if o := fsOK(); o != nil {
+					return o
+				}
+				return &vlib.Outcome{Nontrivial: true, Class: "relative/fs/baseline-same", Counters: map[string]int64{"renders": 1}}
+			})
+			for _, key := range b.keys {
+				if key[0] == 'L' {
+					continue
+				}
+				for n := 1; n <= b.counts[key]; n++ {
+					key, n := key, n
+					t.Case(fmt.Sprintf("%s|%s|fs|%s#%d/nil", pr.id, mode, key, n), func() *vlib.Outcome {
+						if o := fsOK(); o != nil {
+							return o
+						}
+						return faultCase(pr, mode, "fs", []arm{{key, n}}, false, "invocation "+strconv.Itoa(n)+" of "+siteKind(key)+" "+key+" fails, returning (nil, err)")
+					})
+				}
+			}
+			for _, st := range pr.sites {
+				if st.Kind != 'T' || b.counts["L:"+st.Ref] == 0 {
+					continue
+				}
+				st := st
+				for _, kind := range []string{"missing", "broken", "brokeninplace", "isdir"} {
+					kind := kind
+					t.Case(pr.id+"|"+mode+"|fs|name:"+st.Key+":"+kind, func() *vlib.Outcome {
+						if o := fsOK(); o != nil {
+							return o
+						}
+						return nameCase(pr, mode, "fs", st, kind, kind == "missing" && st.Ignore, "FileSystemLoader; the target "+st.Ref+" of "+st.Written+" at site "+st.Key+": "+kind)
 					})
 				}
 			}
